@@ -66,6 +66,20 @@ Theorem C13_every_run_settles : forall sched s,
 Proof. exact not_quiescent_few_steps. Qed.
 Print Assumptions C13_every_run_settles.
 
+(* an instance: a joined connection with a message at the reader, one more on the wire and a call at the manager;
+   nine server steps later (reply, routing, write, second reply, timer, timeout) nothing is left to do - the
+   measure went from 35 to 10 (the idle reader and writer) *)
+Example C13_a_run_settles :
+  let s := final step (init 0) [PeerSend (TOther 7 true); RdRead; MgrStep JOk; Call 33027 true; PeerSend (TOther 8 true)] in
+  let sched := [RdPush; WMsg 0 true; MgrStep JOk; WAct true; RdRead; RdPush; WMsg 0 true; TSend 0; WCpl] in
+  Forall (fun c => internal c = true) sched /\ quiescent (final step s sched) /\
+  executed s sched = 9%nat /\ measure s = 35%nat /\ measure (final step s sched) = 10%nat /\
+  returns (trace step s sched) = [(0%nat, RTimeout)].
+Proof.
+  split; [repeat constructor|]. split; [apply quiescentb_true; vm_compute; reflexivity|].
+  vm_compute. repeat split; reflexivity.
+Qed.
+
 (* ---- satisfiable: disconnect with one command outstanding, one queued in activeMsgChan and one still
         with the manager; everybody is answered, the final state is quiescent ---- *)
 Definition up : list choice := [PeerSend (TOther 7 true); RdRead; MgrStep JOk; RdPush; WMsg 0 true].
